@@ -18,7 +18,7 @@ import Mfi.Lemmas.SkelL
 import Mfi.Lemmas.AccL
 import Mfi.Lemmas.ConstL
 import Mfi.Props.C08
-import Mfi.Props.C03
+import Mfi.Lemmas.FreeL
 import Mfi.Lemmas.WorldL
 
 namespace Mfi.Props.C19
@@ -651,9 +651,9 @@ theorem unclassified_constraints_pinned :
 
 /-- what the emissions vault receives when the emissions admin funds `total` (the transfer is sized by calculate_pre_fee_spl_deposit_amount for the emissions mint in the current epoch) is at least the `total` credited to emissions_remaining — in every epoch, also the one in which a scheduled fee change activates (C03 mint_prefee_covers; tf.mint lines of the tokenfee family run here too) -/
 theorem emissions_funding_arrives {m : Mfi.Token.Mint} {epoch post pre f : Int} (hp : 0 ≤ post)
-    (hm : ∀ c, m = .t22fee c → Mfi.Props.C03.FeeCfgOk c)
+    (hm : ∀ c, m = .t22fee c → Mfi.FreeL.FeeCfgOk c)
     (h : Mfi.Token.mintPre m epoch post = some pre) (hf : Mfi.Token.mintFee m epoch pre = some f) : post ≤ pre - f :=
-  Mfi.Props.C03.mint_prefee_covers hp hm h hf
+  Mfi.FreeL.mint_prefee_covers hp hm h hf
 
 section whole_instructions
 open Mfi Mfi.World Mfi.Gen Mfi.Gen.Acc
